@@ -307,6 +307,14 @@ static void build_ops(int tier)
     }
     for (int i = IX_M1; i <= IX_N1; ++i)
 	add_op(K_SETFZ0V, i, 0, 0, 0);
+    /* the same setters handed the value the object holds at that place
+       already (what a getter has just returned, 50 ohm on a fresh object):
+       the mode switch and its resets must not depend on the value */
+    add_op(K_SETZ0, IX_0, 0, 0, 1);
+    add_op(K_SETALLZ0, 0, 0, 0, 1);
+    add_op(K_SETZ0V, 0, 0, 0, 1);
+    add_op(K_SETFZ0, IX_0, IX_0, 0, 1);
+    add_op(K_SETFZ0V, IX_0, 0, 0, 1);
     /* in-place conversion */
     add_op(K_CONVERT, VPT_S, 0, 0, 0);
     add_op(K_CONVERT, VPT_Z, 0, 0, 0);
@@ -366,7 +374,8 @@ static void op_name(int tier, int o, char *buf, size_t n)
     case K_SETF:
     case K_SETMAT:
     case K_SETFZ0V:
-	snprintf(buf, n, "%s(f=%s)", kind_name[p->kind], ix_name[p->a]);
+	snprintf(buf, n, "%s(f=%s%s)", kind_name[p->kind], ix_name[p->a],
+		p->d == 1 && p->kind == K_SETFZ0V ? ",same value" : "");
 	break;
     case K_SETCELL:
 	snprintf(buf, n, "set_cell(f=%s,r=%s,c=%s)", ix_name[p->a],
@@ -377,13 +386,17 @@ static void op_name(int tier, int o, char *buf, size_t n)
 		ix_name[p->b]);
 	break;
     case K_SETZ0:
-	snprintf(buf, n, "set_z0(p=%s)", ix_name[p->a]);
+	snprintf(buf, n, "set_z0(p=%s%s)", ix_name[p->a],
+		p->d == 1 ? ",same value" : "");
 	break;
     case K_SETFZ0:
-	snprintf(buf, n, "set_fz0(f=%s,p=%s)", ix_name[p->a], ix_name[p->b]);
+	snprintf(buf, n, "set_fz0(f=%s,p=%s%s)", ix_name[p->a], ix_name[p->b],
+		p->d == 1 ? ",same value" : "");
 	break;
     default:
-	snprintf(buf, n, "%s()", kind_name[p->kind]);
+	snprintf(buf, n, "%s(%s)", kind_name[p->kind],
+		p->d == 1 && (p->kind == K_SETALLZ0 || p->kind == K_SETZ0V) ?
+		"same value" : "");
 	break;
     }
 }
@@ -832,6 +845,27 @@ static void apply(vnadata_t *vdp, model_t *m, int o, int *rc_impl,
 	vec[k] = cval(o, k);
     for (int k = 0; k < MAXP; ++k)
 	zv[k] = zval(o, k);
+    if (p->d == 1 && (p->kind == K_SETZ0 || p->kind == K_SETALLZ0 ||
+		p->kind == K_SETZ0V || p->kind == K_SETFZ0 ||
+		p->kind == K_SETFZ0V)) {
+	/* write back what is there */
+	int f = (p->kind == K_SETFZ0 || p->kind == K_SETFZ0V) ?
+	    ix(p->a, m->nf) : 0;
+	int q0 = p->kind == K_SETZ0 ? ix(p->a, ports) :
+	    p->kind == K_SETFZ0 ? ix(p->b, ports) : 0;
+	for (int k = 0; k < MAXP; ++k) {
+	    int q = (p->kind == K_SETZ0 || p->kind == K_SETFZ0 ||
+		    p->kind == K_SETALLZ0) ? q0 : k;
+	    if (q < 0 || q >= MAXP)
+		q = 0;
+	    if (m->fz0 && f >= 0 && f < m->nf)
+		zv[k] = m->fz[f][q];
+	    else if (!m->fz0)
+		zv[k] = m->z0[q];
+	    else
+		zv[k] = Z0DEF;
+	}
+    }
     what[0] = '\0';
     BEGIN();
     switch (p->kind) {
